@@ -114,7 +114,7 @@ pub fn exec(f: &[&str]) -> Option<String> {
             let jt: J = v.clone().into();
             if !sj_eq(&j, &jt, 0) { return Some("bytes and tree convert differently".into()); }
             let text = jsonb::to_string(&doc);
-            let strict: J = match serde_json::from_str(&text) { Ok(x) => x, Err(_) => return Some("strict parser rejects the rendering".into()) };
+            let strict: J = match crate::wire::strict_json(&text) { Ok(x) => x, Err(_) => return Some("strict parser rejects the rendering".into()) };
             // structure, strings, member sets, integer kinds against serde_json's own reading of the
             // text (its float reader can be several ulps off: loose there), floats exactly against
             // std's correctly rounded reading of every float literal of the text
